@@ -236,7 +236,9 @@ BadSpecs(m, S, nvv) ==
          FieldSpec("same", m, FA_a(ND(m), nvv + 1), FA_b(nvv + 1, 0)),
          DictSpec("empty", "none", <<>>, NoneI),
          DictSpec("baddef", "const", <<>>, ConstI(CVec(BadLen(m, nvv), 9)))}
-        \cup (IF nvv > 1 THEN {ScalarSpec(7)} ELSE {})
+        \cup (IF nvv > 1 THEN {ScalarSpec(7), ConstSpec(CVec(nvv - 1, 2)),
+                                FuncSpec(FA_a(ND(m), nvv - 1), FA_b(nvv - 1, 0)),
+                                ArraySpec(m.n \o <<nvv - 1>>, FALSE, <<>>)} ELSE {})
         \cup (IF m.n[1] >= 2 THEN {FieldSpec("smaller", SrcMesh(m, "smaller"), FA_a(ND(m), nvv), FA_b(nvv, 0))} ELSE {})
    ELSE {DictSpec("badcomp", "const", [k \in DOMAIN S |-> IF k = 1 THEN ConstI(CVec(BadLen(m, nvv), 1)) ELSE ConstI(CVec(nvv, k))],
                   ConstI(CVec(nvv, 9))),
